@@ -17,9 +17,9 @@ LEVEL_NOTE = ('Input length bounded (<= 5 octets quick, <= 8 thorough for leaf d
 LEVEL_ADDED = 'Also: sub-TLV carrying BGP-LS TLVs with 6..60 sibling sub-TLVs / chains nested that deep under a fuel linear in the number of TLVs.'
 TECHNIQUE = 'symbolic execution of each decoder on all-symbolic octets with loop-fuel unwinding assertions (CrossHair+z3), CPU-limited replay of non-termination'
 EXPLANATION = 'C11: all-symbolic short inputs per decoder under loop fuel.'
-BOUNDS = 'leaf decoders: every length 0..5 (quick) / 0..8 (thorough); 57 BGP-LS TLV types x sub-length 0..16; Update.parse structured bodies'
+BOUNDS = 'leaf decoders: every length 0..5 (quick) / 0..7 (thorough, less for the decoders whose path count explodes: see tmax); 57 BGP-LS TLV types x sub-length 0..16; Update.parse structured bodies'
 ASSUMPTIONS = ['loop fuel 2*len+8 iterations per loop site is the unwinding bound', 'inputs longer than the stated octet bounds are not covered']
-BUDGET = {'quick': 330, 'thorough': 1500}
+BUDGET = {'quick': 330, 'thorough': 2400}
 
 
 def _decoders():
@@ -225,9 +225,12 @@ def obligations(tier, seed):
     # measured: leaf decoders whose path count explodes beyond these lengths (bit-level branching on every octet)
     qmax = {'nlri-lu4': 4, 'nlri-lu6': 4, 'nlri-ipv6': 4, 'attributes': 4, 'linkstate-attr': 3, 'nlri-flowspec4': 0,
             'prefixsid': 3, 'mpreach': 4, 'mpunreach': 4, 'nlri-vpnv4': 4, 'nlri-vpnv6': 4, 'nlri-evpn': 3, 'nlri-bgpls': 3}
-    maxn = 5 if quick else 8
+    maxn = 5 if quick else 7
+    # thorough tier: decoders whose path count grows by an order of magnitude per octet stop earlier
+    tmax = {'nlri-flowspec4': 3, 'extcommunity': 6, 'attributes': 6, 'linkstate-attr': 3, 'nlri-evpn': 5, 'nlri-bgpls': 5,
+            'mpreach': 6, 'mpunreach': 6, 'prefixsid': 5, 'update': 3, 'update-as4': 3, 'update-addpath': 3}
     for name in names:
-        top = min(maxn, qmax.get(name, maxn)) if quick else (3 if name == 'linkstate-attr' else maxn)
+        top = min(maxn, qmax.get(name, maxn)) if quick else min(maxn, tmax.get(name, maxn))
         for n in range(0, top + 1):
             if quick and n in (3,) and name not in ('update', 'attributes', 'mpreach', 'mpunreach'):
                 continue
@@ -236,7 +239,7 @@ def obligations(tier, seed):
                 prm['dict_result'] = True
                 if n >= 4:
                     continue     # in-range bodies are ob_update_inrange; out-of-range lengths covered by n<=3
-            out.append(ob('C11/leaf/%s/n=%d' % (name, n), 'ob_leaf', prm, cap=200 if quick else 900))
+            out.append(ob('C11/leaf/%s/n=%d' % (name, n), 'ob_leaf', prm, cap=200 if quick else 400))
         for pre in typed.get(name, []):
             for n in (((1, 2) if name == 'nlri-flowspec4' else (1, 2, 3)) if quick else range(0, 6)):
                 out.append(ob('C11/leaf/%s/type=%s/n=%d' % (name, '-'.join(map(str, pre)), n), 'ob_leaf',
